@@ -5,8 +5,11 @@ import (
 	"go/ast"
 	"go/token"
 	"path/filepath"
+	"strconv"
 	"strings"
 )
+
+func strconvUnquote(s string) (string, error) { return strconv.Unquote(s) }
 
 // C13 (also relied on by every property that passes operation options): the shape of the
 // option-application loop in the four `NewOperation` constructors, which all receive the same
@@ -259,5 +262,137 @@ func genC13OptionLoops() string {
 		files = append(files, fmt.Sprintf("%q", lf.rel))
 	}
 	fmt.Fprintf(&b, "def files : List String := [%s]\n\nend Scrapli.Gen.C13OptionLoops\n", strings.Join(files, ", "))
+	return b.String()
+}
+
+// C13: the texts of response.OperationError and response.MultiOperationError (response/errors.go).
+// For `(*OperationError).Error` the single `return fmt.Sprintf(<literal>, args...)` is read; for
+// `(*MultiOperationError).Error` the shape `if len(e.Operations) == N { return fmt.Sprintf(lit1,
+// args1...) }; return fmt.Sprintf(lit2, args2...)`. Formats become byte strings; arguments are
+// rendered with the receiver dropped ("Input", "Operations[0].Input", "len(Operations)"). Anything
+// else yields "?" entries, which the obligations in Props/C13.lean reject.
+func init() { extraGenerators["C13ErrorText.lean"] = genC13ErrorText }
+
+func c13ExprStr(x ast.Expr, recv string) string {
+	switch e := x.(type) {
+	case *ast.Ident:
+		if e.Name == recv {
+			return ""
+		}
+		return e.Name
+	case *ast.SelectorExpr:
+		p := c13ExprStr(e.X, recv)
+		if p == "" {
+			return e.Sel.Name
+		}
+		return p + "." + e.Sel.Name
+	case *ast.IndexExpr:
+		return c13ExprStr(e.X, recv) + "[" + c13ExprStr(e.Index, recv) + "]"
+	case *ast.BasicLit:
+		return e.Value
+	case *ast.CallExpr:
+		var a []string
+		for _, y := range e.Args {
+			a = append(a, c13ExprStr(y, recv))
+		}
+		return c13ExprStr(e.Fun, recv) + "(" + strings.Join(a, ",") + ")"
+	}
+	return "?"
+}
+
+// c13Sprintf reads `return fmt.Sprintf(lit, args...)`
+func c13Sprintf(s ast.Stmt, recv string) (format string, args []string, ok bool) {
+	r, isRet := s.(*ast.ReturnStmt)
+	if !isRet || len(r.Results) != 1 {
+		return "", nil, false
+	}
+	c, isCall := r.Results[0].(*ast.CallExpr)
+	if !isCall || !isSel(c.Fun, "fmt", "Sprintf") || len(c.Args) < 1 {
+		return "", nil, false
+	}
+	lit, isLit := c.Args[0].(*ast.BasicLit)
+	if !isLit || lit.Kind != token.STRING {
+		return "", nil, false
+	}
+	f, err := strconvUnquote(lit.Value)
+	if err != nil {
+		return "", nil, false
+	}
+	for _, a := range c.Args[1:] {
+		args = append(args, c13ExprStr(a, recv))
+	}
+	return f, args, true
+}
+
+func leanStrs(l []string) string {
+	var p []string
+	for _, s := range l {
+		p = append(p, fmt.Sprintf("%q", s))
+	}
+	return "[" + strings.Join(p, ", ") + "]"
+}
+
+func genC13ErrorText() string {
+	opFmt, multiOneFmt, multiManyFmt := "?", "?", "?"
+	opArgs, multiOneArgs, multiManyArgs := []string{"?"}, []string{"?"}, []string{"?"}
+	oneWhen := "none"
+	fset := token.NewFileSet()
+	f, err := parserParse(fset, filepath.Join(*repo, "response", "errors.go"))
+	if err == nil {
+		for _, d := range f.Decls {
+			fd, ok := d.(*ast.FuncDecl)
+			if !ok || fd.Recv == nil || fd.Name.Name != "Error" || fd.Body == nil || len(fd.Recv.List) != 1 || len(fd.Recv.List[0].Names) != 1 {
+				continue
+			}
+			recv := fd.Recv.List[0].Names[0].Name
+			typ := ""
+			if st, ok := fd.Recv.List[0].Type.(*ast.StarExpr); ok {
+				if id, ok := st.X.(*ast.Ident); ok {
+					typ = id.Name
+				}
+			}
+			body := fd.Body.List
+			switch typ {
+			case "OperationError":
+				if len(body) == 1 {
+					if ft, a, ok := c13Sprintf(body[0], recv); ok {
+						opFmt, opArgs = ft, a
+					}
+				}
+			case "MultiOperationError":
+				if len(body) != 2 {
+					continue
+				}
+				is, ok := body[0].(*ast.IfStmt)
+				if !ok || is.Init != nil || is.Else != nil || len(is.Body.List) != 1 {
+					continue
+				}
+				be, ok := is.Cond.(*ast.BinaryExpr)
+				if !ok || be.Op != token.EQL || c13ExprStr(be.X, recv) != "len(Operations)" {
+					continue
+				}
+				n, isLit := be.Y.(*ast.BasicLit)
+				if !isLit || n.Kind != token.INT {
+					continue
+				}
+				ft1, a1, ok1 := c13Sprintf(is.Body.List[0], recv)
+				ft2, a2, ok2 := c13Sprintf(body[1], recv)
+				if ok1 && ok2 {
+					multiOneFmt, multiOneArgs, multiManyFmt, multiManyArgs = ft1, a1, ft2, a2
+					oneWhen = "some " + n.Value
+				}
+			}
+		}
+	}
+	var b strings.Builder
+	b.WriteString("-- GENERATED by go/cmd/extract (gen_c13.go) from /repo's working tree; do not edit.\n")
+	b.WriteString("import ScrapliModel.Bytes\n")
+	b.WriteString("/-! Formats and argument lists of `(*OperationError).Error` and `(*MultiOperationError).Error`\n(`response/errors.go`); `?` = the source no longer has the expected shape. -/\n")
+	b.WriteString("namespace Scrapli.Gen.C13ErrorText\nopen Scrapli\n\n")
+	fmt.Fprintf(&b, "/-- %q -/\ndef opErrorFormat : Bytes := %s\ndef opErrorArgs : List String := %s\n\n", opFmt, leanBytes(opFmt), leanStrs(opArgs))
+	fmt.Fprintf(&b, "/-- the `len(e.Operations) == N` under which the single-error text is used -/\ndef multiOneWhenLen : Option Nat := %s\n", oneWhen)
+	fmt.Fprintf(&b, "/-- %q -/\ndef multiOneFormat : Bytes := %s\ndef multiOneArgs : List String := %s\n\n", multiOneFmt, leanBytes(multiOneFmt), leanStrs(multiOneArgs))
+	fmt.Fprintf(&b, "/-- %q -/\ndef multiManyFormat : Bytes := %s\ndef multiManyArgs : List String := %s\n\n", multiManyFmt, leanBytes(multiManyFmt), leanStrs(multiManyArgs))
+	b.WriteString("end Scrapli.Gen.C13ErrorText\n")
 	return b.String()
 }
